@@ -22,17 +22,22 @@ import (
 // ---------------------------------------------------------------------------
 
 type Facts struct {
-	w        *World
-	bindings map[*ssa.FreeVar]ssa.Value // free variable -> value bound at the MakeClosure site
-	closSite map[*ssa.Function]*ssa.MakeClosure
-	pathMemo map[ssa.Value]string
-	allocNm  map[*ssa.Alloc]string
-	fi       map[*ssa.Function]*fnInfo
-	funcVals map[ssa.Value][]*ssa.Function // memo for function-value resolution
-	argsOf   map[*ssa.Parameter][]ssa.Value
-	sumMemo  map[*ssa.Function]*calleeSummary
-	rootType map[string]string          // "fn/var" root token of an access path -> typed rendering "<T>" / "<#i T>"
-	fldStore map[*types.Var][]ssa.Value // function-typed values stored into struct fields (module-wide, field-based)
+	w         *World
+	bindings  map[*ssa.FreeVar]ssa.Value // free variable -> value bound at the MakeClosure site
+	closSite  map[*ssa.Function]*ssa.MakeClosure
+	pathMemo  map[ssa.Value]string
+	allocNm   map[*ssa.Alloc]string
+	fi        map[*ssa.Function]*fnInfo
+	funcVals  map[ssa.Value][]*ssa.Function // memo for function-value resolution
+	argsOf    map[*ssa.Parameter][]ssa.Value
+	sumMemo   map[*ssa.Function]*calleeSummary
+	rootType  map[string]string          // "fn/var" root token of an access path -> typed rendering "<T>" / "<#i T>"
+	fldStore  map[*types.Var][]ssa.Value // function-typed values stored into struct fields (module-wide, field-based)
+	sitesOf   map[*ssa.Function][]ssa.CallInstruction
+	addrTaken map[*ssa.Function]bool
+	entryMemo map[*ssa.Function][]Atom
+	entryBusy map[*ssa.Function]bool
+	boxed     map[string]bool
 }
 
 func newFacts(w *World) *Facts {
@@ -307,6 +312,23 @@ func (f *Facts) path(v ssa.Value) string {
 	return p
 }
 
+// fieldLoadAlias: v is the load of a field path (`conditions := request.Conditions`): a variable assigned exactly
+// once from it names the same thing.
+func (f *Facts) fieldLoadAlias(v ssa.Value) (string, bool) {
+	ld, ok := v.(*ssa.UnOp)
+	if !ok || ld.Op != token.MUL {
+		return "", false
+	}
+	if _, ok := ld.X.(*ssa.FieldAddr); !ok {
+		return "", false
+	}
+	p := f.path(ld)
+	if strings.HasPrefix(p, "call@") || strings.HasPrefix(p, "rec@") || strings.Contains(p, "rec@") {
+		return "", false
+	}
+	return p, true
+}
+
 func deref(p string) string {
 	if strings.HasPrefix(p, "&") {
 		return p[1:]
@@ -365,6 +387,9 @@ func (f *Facts) path0(v ssa.Value) string {
 							return p
 						}
 					}
+					if p, ok := f.fieldLoadAlias(st[0]); ok {
+						return p
+					}
 				}
 			}
 			if fv, ok := x.X.(*ssa.FreeVar); ok {
@@ -374,6 +399,9 @@ func (f *Facts) path0(v ssa.Value) string {
 							if p := f.path(st[0]); !strings.HasPrefix(p, "call@") && !strings.HasPrefix(p, "rec@") {
 								return p
 							}
+						}
+						if p, ok := f.fieldLoadAlias(st[0]); ok {
+							return p
 						}
 					}
 				}
@@ -738,6 +766,7 @@ func (f *Facts) AtomsAt(at ssa.Instruction) []Atom {
 		}
 		out = append(out, a)
 	}
+	out = append(out, f.entryAtomsAt(b.Parent(), at)...)
 	return f.expandAtoms(out)
 }
 
@@ -977,6 +1006,10 @@ func (f *Facts) summaryOf(g *ssa.Function, depth int) *calleeSummary {
 		for _, c := range p.Conds {
 			ap.Atoms = append(ap.Atoms, f.atomOf(c.Cond, c.Pol))
 		}
+		var feas bool
+		if ap.Atoms, feas = f.substAtoms(&ap.Path, ap.Atoms); !feas {
+			continue
+		}
 		ap.Atoms = f.expandAtomsDepth(ap.Atoms, depth+1)
 		if ap.Ret == nil {
 			continue
@@ -1170,4 +1203,165 @@ func substParams(t string, roots []string, args []ssa.Value, f *Facts, typed boo
 		}
 	}
 	return t
+}
+
+// ---------------------------------------------------------------------------
+// Entry atoms: a guard that stayed in the caller still counts.
+// When a handler is split - the lookup and its error test stay, the rest moves into an unexported helper - the
+// instructions of the helper are reached only through its call sites. For an unexported, non-closure module
+// function that is never used as a value, the atoms that hold at every one of its call sites hold on entry.
+// Atoms about a path rooted at an argument are re-rooted at the parameter (and dropped if the helper may store
+// to that path before the use); the others are kept as they are (their roots are SSA values of the caller).
+// ---------------------------------------------------------------------------
+
+func (f *Facts) buildCallSites() {
+	f.sitesOf = map[*ssa.Function][]ssa.CallInstruction{}
+	f.addrTaken = map[*ssa.Function]bool{}
+	for _, fn := range f.w.Funcs {
+		for _, b := range fn.Blocks {
+			for _, in := range b.Instrs {
+				var callee *ssa.Function
+				if c, ok := in.(ssa.CallInstruction); ok {
+					if g := c.Common().StaticCallee(); g != nil {
+						if _, isClosure := c.Common().Value.(*ssa.MakeClosure); !isClosure {
+							callee = g
+							f.sitesOf[g] = append(f.sitesOf[g], c)
+						}
+					}
+				}
+				for _, op := range in.Operands(nil) {
+					if op == nil || *op == nil {
+						continue
+					}
+					if g, ok := (*op).(*ssa.Function); ok {
+						if c, isCall := in.(ssa.CallInstruction); isCall && g == callee && c.Common().Value == ssa.Value(g) {
+							// the call position itself; the function may still appear among the arguments
+							n := 0
+							for _, a := range c.Common().Args {
+								if a == ssa.Value(g) {
+									n++
+								}
+							}
+							if n == 0 {
+								continue
+							}
+						}
+						f.addrTaken[g] = true
+					}
+				}
+			}
+		}
+	}
+}
+
+func (f *Facts) entryAtoms(fn *ssa.Function) []Atom {
+	if f.sitesOf == nil {
+		f.buildCallSites()
+		f.entryMemo = map[*ssa.Function][]Atom{}
+		f.entryBusy = map[*ssa.Function]bool{}
+	}
+	if a, ok := f.entryMemo[fn]; ok {
+		return a
+	}
+	if f.entryBusy[fn] || fn.Parent() != nil || token.IsExported(fn.Name()) || f.addrTaken[fn] || len(f.sitesOf[fn]) == 0 || len(f.entryBusy) > 3 {
+		return nil
+	}
+	if fn.Signature.Recv() != nil && f.ifaceDeclares(fn.Name()) {
+		// an unexported method can be reached dynamically only through an interface of the module that declares it
+		return nil
+	}
+	f.entryBusy[fn] = true
+	defer delete(f.entryBusy, fn)
+	var sets [][]Atom
+	for _, c := range f.sitesOf[fn] {
+		args := c.Common().Args
+		var set []Atom
+		for _, a := range f.AtomsAt(c) {
+			rooted := false
+			for i, p := range fn.Params {
+				if i >= len(args) {
+					break
+				}
+				ap := f.path(args[i])
+				if ap == "" || strings.HasPrefix(ap, "const:") || ap == "nil" || ap == "zero" {
+					continue
+				}
+				re := func(s string) (string, bool) {
+					if s == ap {
+						return f.path(p), true
+					}
+					if strings.HasPrefix(s, ap+".") || strings.HasPrefix(s, ap+"[") || strings.HasPrefix(s, ap+"(") {
+						return f.path(p) + s[len(ap):], true
+					}
+					return s, false
+				}
+				na, okA := re(a.A)
+				nb, okB := re(a.B)
+				if okA || okB {
+					rooted = true
+					t := a
+					t.A, t.B = na, nb
+					t.TA, t.TB = f.T(na), f.T(nb)
+					set = append(set, t)
+				}
+			}
+			if !rooted {
+				set = append(set, a)
+			}
+		}
+		sets = append(sets, set)
+	}
+	out := intersectAtoms(sets)
+	f.entryMemo[fn] = out
+	return out
+}
+
+// ifaceDeclares: some interface type declared in the module has a method of this name.
+func (f *Facts) ifaceDeclares(name string) bool {
+	if f.boxed == nil {
+		f.boxed = map[string]bool{}
+		for _, p := range f.w.Pkgs {
+			sc := p.Types.Scope()
+			for _, n := range sc.Names() {
+				if tn, ok := sc.Lookup(n).(*types.TypeName); ok {
+					if it, ok := tn.Type().Underlying().(*types.Interface); ok {
+						for i := 0; i < it.NumMethods(); i++ {
+							f.boxed[it.Method(i).Name()] = true
+						}
+					}
+				}
+			}
+		}
+	}
+	return f.boxed[name]
+}
+
+// entryAtomsAt: the entry atoms of at's function that no store of the function invalidates before at.
+func (f *Facts) entryAtomsAt(fn *ssa.Function, at ssa.Instruction) []Atom {
+	ea := f.entryAtoms(fn)
+	if len(ea) == 0 {
+		return nil
+	}
+	fi := f.info(fn)
+	var out []Atom
+	for _, a := range ea {
+		dead := false
+		for _, s := range fi.stores {
+			sp := strings.TrimPrefix(f.path(s.Addr), "&")
+			if sp == "" {
+				continue
+			}
+			for _, p := range []string{a.A, a.B} {
+				if p != "" && (p == sp || strings.HasPrefix(p, sp+".") || strings.HasPrefix(p, sp+"[")) {
+					if at == nil || s.Block() == at.Block() && instrIndex(s) < instrIndex(at) || s.Block() != at.Block() && fi.reachable(s.Block(), at.Block()) {
+						dead = true
+					}
+				}
+			}
+		}
+		if !dead {
+			out = append(out, a)
+		}
+	}
+	return out
 }
